@@ -20,10 +20,10 @@ def build(tier: str, rng: random.Random):
         lu = [{"cls": rng.choice("ABCD"), "bs": 1} for _ in range(rng.randint(1, 4))]
         alt1 = [{"cls": rng.choice("ABCDEF"), "bs": 1} for _ in range(rng.randint(1, 3))]
         alt2 = [{"cls": rng.choice("CDEFG"), "bs": 1} for _ in range(rng.randint(1, 3))]
-        ops2 = [["call", rng.randint(1, 3)], ["set", alt1], ["call", rng.randint(1, 3)]]
+        ops2 = [["call", rng.randint(1, 3)], [rng.choice(["set", "setsched"]), alt1], ["call", rng.randint(1, 3)]]
         if rng.random() < 0.6:
             ops2 += [["restore"], ["call", 1]]
-        ops2 += [["set", alt2], ["call", rng.randint(1, 2)]]
+        ops2 += [[rng.choice(["set", "setsched"]), alt2], ["call", rng.randint(1, 2)]]
         if rng.random() < 0.5:
             ops2 += [["restore"], ["call", 1]]
         cfg = {"lineup": lu, "alts": [alt1, alt2], "kind": "rr", "E": 1, "convon": False, "verbose": False, "saving": True,
